@@ -642,6 +642,9 @@ pub fn collect_streams(bws: &Vec<(Info, Path)>, chrom: &Str, size: u32, many: bo
                     [[L: chunked/loop/every_level_is_made_of_all_queries_in_order]]
                     flat(srcs(merges@)) == qs,
                     max_bw_fds >= 2,
+                    [[L: chunked/loop/no_regrouping_when_the_files_fit_in_one_group]]
+                    bws@.len() <= max_bw_fds ==> srcs(merges@) == file_srcs(qs),
+                    qs.len() == bws@.len(),
                     [[L: chunked/loop/partial_merges_are_plain_sums]]
                     all_plain(srcs(merges@)),
                 decreases
@@ -649,6 +652,7 @@ pub fn collect_streams(bws: &Vec<(Info, Path)>, chrom: &Str, size: u32, many: bo
                     merges@.len(),
 //@at /let len = merges\.len\(\);/ after
                     let ghost level = srcs(merges@);
+                    proof { if bws@.len() <= max_bw_fds { assert(srcs(merges@).len() == file_srcs(qs).len()); } assert(bws@.len() > max_bw_fds); }
                     proof { assert(len as int / max_bw_fds as int <= len as int / 2) by (nonlinear_arith) requires max_bw_fds >= 2, len >= 0; }
 //@loop 2
                         invariant
@@ -938,6 +942,10 @@ pub type Group = Result<(Str, u32, MergingValues), MergingValuesError>;
 #[verifier::external_body]
 pub struct GroupIter { _p: u8 }
 impl GroupIter {
+    // what an edit of a loop header might insert (`for v in iter.skip(1)`): NO postcondition (judged, not rejected)
+    #[verifier::external_body] pub fn skip(self, n: usize) -> GroupIter { unimplemented!() }
+    #[verifier::external_body] pub fn take(self, n: usize) -> GroupIter { unimplemented!() }
+    #[verifier::external_body] pub fn step_by(self, n: usize) -> GroupIter { unimplemented!() }
     pub uninterp spec fn rest(&self) -> Seq<Group>;
     #[verifier::external_body]
     pub fn next(&mut self) -> (r: Option<Group>)
@@ -1245,12 +1253,12 @@ proof fn lemma_bedgraph_and_bigwig_outputs_agree(lb: Seq<Line>, eb: Seq<Event>, 
 }
 
 // Carved: the `for v in iter { .. }` loop of the BedGraph arm.  Frame (signature, `Ok(())`) is the template's.
-// STRUCTURAL (R11): `for v in iter {` -> `loop { let v = match iter.next() { Some(v__) => v__, None => break };`
+// STRUCTURAL (R11): `for v in ITER {` -> `let mut it__ = ITER; loop { let v = match it__.next() { Some(v__) => v__, None => break };`
 // (what `for` does with an iterator); `v?` / `Err(e)?` -> explicit match / return with the Box<dyn Error> conversion.
 //@extract fn bigtools/src/utils/cli/bigwigmerge.rs bigwigmerge
 //@rule R16
 //@presub /\A.*?let mut writer = io::BufWriter::new\(bedgraph\);\s*\n(.*)\n        \}\n    \}\s*(?:\/\/[^\n]*\s*)*Ok\(\(\)\)\s*\}\s*\Z/ => fn write_bedgraph(iter0: GroupIter, writer: &mut TextOut) -> Result<(), AnyErr> {\n    let mut iter = iter0;\n\1\n    Ok(())\n} min=1 count=1
-//@sub /for v in iter \{/ => loop { let v = match iter.next() { Some(v__) => v__, None => break }; min=1 count=1
+//@sub /for v in (iter[^{\n]*?) \{/ => let mut it__ = \1; loop { let v = match it__.next() { Some(v__) => v__, None => break }; min=1 count=1
 //@sub /= v\?;/ => = (match v { Ok(v__) => v__, Err(e__) => return Err(any_err(e__)) }); min=0
 //@sub /Err\(e\)\?,/ => return Err(any_err(e)), min=0
 //@ret r
@@ -1270,7 +1278,7 @@ proof fn lemma_bedgraph_and_bigwig_outputs_agree(lb: Seq<Line>, eb: Seq<Event>, 
         invariant
             [[L: bedgraph/loop/groups_done_so_far]]
             0 <= m <= q.len(), q == iter0.rest(), lines0 == old(writer).lines(),
-            iter.rest() == q.subrange(m, q.len() as int),
+            it__.rest() == q.subrange(m, q.len() as int),
             groups_ok(q, m),
             [[L: bedgraph/loop/text_is_the_lines_of_the_groups_done]]
             writer.lines() == bg_all(lines0, q, m),
@@ -1279,7 +1287,7 @@ proof fn lemma_bedgraph_and_bigwig_outputs_agree(lb: Seq<Line>, eb: Seq<Event>, 
         decreases
             [[L: bedgraph/loop/termination_one_group_per_iteration]]
             q.len() - m,
-//@at /loop \{ let v = match iter\.next\(\)/ before
+//@at /loop \{ let v = match it__\.next\(\)/ before
     proof { assert(q.subrange(0, q.len() as int) =~= q); }
 //@at /let \(chrom, _, mut values\) =/ before
                 proof {
